@@ -820,6 +820,20 @@ func (e *Env) trCall(x *ECall) TV {
 			e.fail("cast: unknown type %s", lit.Val)
 		}
 		return TV{T: e.u.unboxIface(argOf(0).T, ty), Ty: ty}
+	case "box": // box(value, "T"): the interface value holding `value` as a T (what Go builds for `any(T(value))`)
+		need(2)
+		lit, ok := x.Args[1].(*ELit)
+		if !ok {
+			e.fail("box needs a type string literal")
+		}
+		_, ty := e.resolveType(lit.Val)
+		if bt := preciseBasic(lit.Val); bt != nil {
+			ty = bt
+		}
+		if ty == nil {
+			e.fail("box: unknown type %s", lit.Val)
+		}
+		return TV{T: e.u.boxIface(Val{T: argOf(0).T, Ty: ty}, ty), Ty: types.NewInterfaceType(nil, nil)}
 	case "typeid": // typeid("pkg.T") / typeid("*pkg.T") / typeid("string")
 		need(1)
 		lit, ok := x.Args[0].(*ELit)
